@@ -5,7 +5,8 @@
 (* deviation) is used only to attribute a rejected record to a known       *)
 (* finding.                                                                *)
 (***************************************************************************)
-EXTENDS Slice, JValue, Json, IOUtils
+EXTENDS Slice, JValue, Json, IOUtils, SequencesExt
+CONSTANT KnownDevs
 VARIABLES chunk, phase
 
 IsOk(o)    == "ok" \in DOMAIN o
@@ -36,10 +37,9 @@ L1Outcome(r, devs) ==
   LET s == SliceL1(r.len, r.start, r.stop, Step(r), devs)
   IN IF s.ovf \/ s.oob THEN "panic" ELSE "ok"
 
-AllDevs == <<"DEV_SLICE_STEP_OVERFLOW">>
 Explains(r) ==
   IF r.kind \in {"slice", "method"} /\ Step(r) # 0
-  THEN SelectSeq(AllDevs, LAMBDA d : L1Outcome(r, {d}) = "panic" /\ IsPanic(r.out))
+  THEN SelectSeq(SetToSeq(KnownDevs), LAMBDA d : L1Outcome(r, {d}) = "panic" /\ IsPanic(r.out))
   ELSE <<>>
 
 NonTrivial(r) == r.kind \in {"slice", "method"} /\ IsOk(r.out) /\ Len(r.out.ok.a) >= 2
